@@ -337,6 +337,9 @@ def wrap_random(rng, sels, frags, reusable, counter, p, pdir):
         else:
             out += items[i:i + ln]
         i += ln
+    spreads = [x for x in out if x["k"] == "s"]
+    if spreads and rng.random() < 0.3:        # the same fragment spread again in the same scope, own directives
+        out.insert(rng.randint(0, len(out)), S(rng.choice(spreads)["n"], d=rand_dirs(rng, max(pdir, 0.3) if pdir else 0)))
     if reusable and rng.random() < 0.25:
         out.insert(rng.randint(0, len(out)), S(rng.choice(reusable), d=rand_dirs(rng, pdir)))
     if rng.random() < p / 2:      # wrap the whole list once more
@@ -349,6 +352,8 @@ def gen_doc(rng, counter):
     nops = rng.choice([1, 1, 2, 3])
     depth = rng.randint(0, 5)
     pdir = rng.choice([0, 0, 0.15, 0.3])
+    # directives on the WRAPPERS (inline fragments, spreads): then the base document is no longer comparable
+    wdir = rng.choice([0, 0, 0.2, 0.35])
     base_ops, ops, frags = [], [], []
     for i in range(nops):
         name = "Q%d" % i if (nops > 1 or rng.random() < 0.5) else None
@@ -356,12 +361,12 @@ def gen_doc(rng, counter):
         reusable = [f["name"] for f in frags]
         before = len(frags)
         newfr = []
-        sels = wrap_random(rng, base, newfr, reusable, counter, rng.choice([0.15, 0.3, 0.45]), 0)
+        sels = wrap_random(rng, base, newfr, reusable, counter, rng.choice([0.15, 0.3, 0.45]), wdir)
         frags += newfr
         del before
         base_ops.append({"name": name, "sels": base})
         ops.append({"name": name, "sels": sels})
-    return {"ops": base_ops, "frags": []}, {"ops": ops, "frags": frags}
+    return ({"ops": base_ops, "frags": []} if wdir == 0 else None), {"ops": ops, "frags": frags}
 
 
 def prune_frags(doc):
@@ -700,7 +705,14 @@ def correspond(ctx, real, cases, fixed):
             model = [[(ERRMAP.get(cell[md_i], cell[md_i]) if isinstance(cell[md_i], str) else cell[md_i]) for cell in row] for row in a["paths"]]
             ctx.count()
             if impl != model:
-                ctx.fail("corr:selected_fields", "model and selected_fields differ", c.detail(maxdepth=md, impl=impl, model=model), kind="correspondence")
+                if md == 0:
+                    # maxdepth=None is the mode the (unchanged) rule uses: property-relevant
+                    ctx.fail("corr:selected_fields", "model and selected_fields differ", c.detail(maxdepth=md, impl=impl, model=model), kind="correspondence")
+                else:
+                    # bounded maxdepth is modelled but is not part of what C19 states: recorded, never an alarm
+                    ctx.extra["selected_fields_bounded_maxdepth_differences"] = ctx.extra.get("selected_fields_bounded_maxdepth_differences", 0) + 1
+                    if len(ctx.notes) < 3:
+                        ctx.notes.append("selected_fields(maxdepth=%d) differs from the model on: %s" % (md, p_doc(c.doc)[:200]))
                 break
         if md == MAXDEPTHS[-1]:
             impl0 = real.paths(document, c.real_vs, 0)
@@ -800,7 +812,7 @@ def run(ctx):
     flush()
 
     # --- sampled larger documents ---------------------------------------------------------
-    n = ctx.n(500, 5000)
+    n = ctx.n(500, 3500)
     for j in range(n):
         if ctx.time_left() < 8:
             ctx.notes.append("sampled stream stopped early at %d/%d" % (j, n))
@@ -816,6 +828,7 @@ def run(ctx):
         for vs in assigns:
             check(Case(doc, vs, base=base))
         ctx.stat("sampled")
+        ctx.stat("sampled-with-wrapper-directives" if base is None else "sampled-with-base(wrap oracle)")
         if j < 3:
             ctx.sample({"text": p_doc(doc), "variables": assigns[0], "spec_depths": [ref_depth(doc, i, assigns[0]) for i in range(len(doc["ops"]))]})
     flush()
